@@ -1,7 +1,7 @@
 """C06 - the search information is a faithful, ordered and complete record of the trials."""
 import numpy as np
 
-from vlib import scenario, record, moments
+from vlib import ambient, scenario, record, moments
 
 LEVEL = "exploration"
 RULE = ("seeded scenarios (all objective families, N=1..5, boxes of every kind, densities 2..12) driven step-by-step, in batches and by Solve; "
@@ -77,10 +77,14 @@ def cases(tier, seed):
         out.append({"N": N, "lower": lo, "upper": hi, "box": kind, "obj": obj, "r": float(rng.choice([1.3, 2.0, 3.0, 5.0])), "eps": 1e-3,
                     "iters": 400, "m": 10, "refine": False, "holder": "same", "pk": "collapse",
                     "pattern": [["iter", 1]] * 40 + [["iter", 10]] * 26})
+    # workloads written by the repository's authors (shipped examples, solving tests) under the same oracle
+    out += ambient.ambient_cases(tier)
     return out
 
 
 def run_case(scn):
+    if "ambient" in scn:
+        return ambient.run_ambient_case(scn, "C06")
     install_insert_invariant()
     _insert_stats["calls"] = 0
     _insert_stats["bad"] = []
